@@ -131,11 +131,41 @@ def state_variable_lists(repo):
     return exact, prefixes
 
 
+PREPASS = ("for (phase_name, phase) in zip(names, phases):\n"
+           "    for stmt in phase:\n"
+           "        if isinstance(stmt, lang.Assign):\n"
+           "            for (ident, _, _) in stmt.loops:\n"
+           "                result.set(phase_name, ident, kind=Integer())")
+
+
 def finder_facts(tree):
-    """Structural facts of SymbolKindFinder.__call__ the model relies on (no switches)."""
+    """Structural facts of SymbolKindFinder.__call__ the model relies on, and the switch for the
+    up-front registration of loop variables (a `for` over zip(names, phases) placed between the
+    forced kinds and make_kim)."""
     cls = _find_class(tree, "SymbolKindFinder")
     fn = _find_def(cls, "__call__")
     src = _src(fn)
+    kinds = []
+    for n in fn.body:
+        if isinstance(n, ast.If) and _src(n.test) == "forced_kinds is not None":
+            kinds.append("forced")
+        elif isinstance(n, ast.FunctionDef) and n.name == "make_kim":
+            kinds.append("make_kim")
+        elif isinstance(n, ast.While):
+            kinds.append("while")
+        elif isinstance(n, ast.For) and _src(n.iter) == "zip(names, phases)":
+            kinds.append("prepass" if ast.unparse(n) == ast.unparse(ast.parse(PREPASS).body[0]) else "for")
+    if kinds == ["forced", "make_kim", "while", "for"]:
+        prepass = False
+    elif kinds == ["forced", "prepass", "make_kim", "while", "for"]:
+        prepass = True
+    else:
+        raise ShapeError("data.py SymbolKindFinder.__call__: unexpected statement sequence %r" % kinds)
+    _finder_needles(src)
+    return prepass
+
+
+def _finder_needles(src):
     for needle in ("phase_name, stmt = stmt_queue.pop()",
                    "stmt_queue = stmt_queue_push_buffer",
                    "stmt_queue_push_buffer.append((phase_name, stmt))",
@@ -152,7 +182,7 @@ def generate(repo):
     tree = _parse(repo, "dagrt/data.py")
     ut_int, arr_int = unify_flags(tree)
     ins_changed, raises, names = set_flags(tree)
-    finder_facts(tree)
+    prepass = finder_facts(tree)
     exact, prefixes = state_variable_lists(repo)
     out = [HEADER % "c14"]
     out.append("(* dagrt/data.py unify *)")
@@ -161,6 +191,8 @@ def generate(repo):
     out.append("(* dagrt/data.py SymbolKindTable.set *)")
     out.append("Definition set_insert_marks_changed : bool := %s." % coq_bool(ins_changed))
     out.append("Definition set_reraises : bool := %s." % coq_bool(raises))
+    out.append("(* dagrt/data.py SymbolKindFinder.__call__ *)")
+    out.append("Definition loop_variables_prepass : bool := %s." % coq_bool(prepass))
     out.append("(* dagrt/data.py SymbolKindTable.__init__: names preset to Scalar(is_real_valued=True) *)")
     out.append("Definition init_global_names : list string := %s." % coq_string_list(names))
     out.append("(* dagrt/utils.py is_state_variable *)")
